@@ -1159,8 +1159,8 @@ impl Walrus {
                 if let Some(mut info) = info_guard {
                     update_state(&mut info);
                 }
-            } else {
-                // Reacquire
+            } else if start_offset.is_none() {
+                // Reacquire (the shared cursor belongs to stateful reads only)
                 let arc = {
                     let map = self.reader.data.read().unwrap();
                     map.get(col_name).cloned()
